@@ -19,8 +19,9 @@ TRUSTED = TRUSTED_T2 + [
     "A-ENV: at most one request of another thread is in flight at a time",
     "device operations are abstracted by registered commands that return, raise, or await a device future completed or failed by the environment",
 ]
-NOT_DECIDED = ("status objects of set / trigger / kickoff finishing unsuccessfully between their message and the wait on their group "
-               "(_status_object_completed + _wait) are covered by the T1 tasks of this file, not under every interleaving")
+NOT_DECIDED = ("that a status failing between its message and the wait on its group reaches the plan *at* that wait under every interleaving: proved here "
+               "are the pieces - _status_object_completed stores FailedStatus for the plan (C02), _wait consumes exactly its own group, waits for all of its "
+               "statuses and leaves watched / other groups registered (T1 tasks below), _run throws a stored exception at the next yield (T2)")
 THOROUGH = os.environ.get("VERIF_TIER") == "thorough"
 
 SCENARIOS = [
@@ -50,3 +51,78 @@ def _twin(sc, tr):
 
 
 t2_tasks(PROP, "twin", [("custom", "", {})], [_twin], twin="twin:nothing is ever thrown into the plan")
+
+
+# ------------------------------------------------------------------------------------------------ T1: _wait and its groups
+# "for a status: no later than the wait on its group": the wait on a group must really wait for that group's statuses, and waiting on one
+# group (also with other groups *watched*) must leave every other group registered for its own wait.
+from . import aio as _aio                       # noqa: E402
+from .re_lib import make_re, install_tracer     # noqa: E402
+from .bundler_lib import Env                    # noqa: E402
+
+WQ = f"{RE}._wait"
+G1 = f"{WQ}#frame[waiting on one group leaves every other group, watched or not, registered with its statuses]"
+G2 = f"{WQ}#ensures[returns done only when every status of the group has completed; the group is consumed]"
+
+
+def _mk_wait(watch):
+    @task(f"_wait[watch={watch}]", PROP, functions=[WQ, f"{RE}._wait_for", f"{RE}._call_waiting_hook"], expect=[G1, G2], covers=["returned done", "raised"], path_cap=300000)
+    def t(I):
+        w = I.w
+        env = Env(I)
+        loop = _aio.install(I)
+        install_tracer(I, [])
+        span = Opaque("span", {"noop": True, "default_attr": "method"})
+        w.stubs[(MR, "trace")] = Opaque("trace", {"methods": {"get_current_span": lambda *a: span}, "isinstance_default": False})
+        futs = {n: _aio.AFuture(loop, n, env=True) for n in ("a1", "a2", "w1")}
+        fac = {n: native(lambda I_, a, k, f=f: f.facade) for n, f in futs.items()}
+        for n, f in fac.items():
+            f._canon_label = "factory-" + n
+        groups = {"A": {fac["a1"], fac["a2"]}, "W": {fac["w1"]}}
+        before = {g: set(s) for g, s in groups.items()}
+        sets = dict(groups)
+        st = {g: {Opaque(f"status-{g}", {"token": "status", "attrs": {"done": True}, "isinstance_default": False})} for g in groups}
+        st_before = {g: set(s) for g, s in st.items()}
+        re_ = make_re(I, env, _groups=groups, _status_objs=st, _seen_wait_and_move_on_keys=set(), waiting_hook=None, _loop_for_kwargs={})
+        kw = {"group": "A"}
+        if watch:
+            kw["watch"] = ("W",)
+        coro = I.call_value(I.getattr(re_, "_wait"), MsgVal("wait", None, (), kw, None))
+        task_ = loop.create_task(coro, "_wait")
+        failed = []
+
+        def menu():
+            out = []
+            for n, f in futs.items():
+                if not f.done() and not getattr(f, "fired", False):
+                    def ok(f=f):
+                        f.fired = True
+                        loop.call_soon(lambda: None if f.done() else f.set_result(None), label="status-ok")
+
+                    def fail(f=f, n=n):
+                        f.fired = True
+                        e = Obj(BUILTIN_CLASSES["ValueError"], {"args": ("failed status",), "__cause__": None}, label="status_error_" + n)
+                        failed.append(n)
+                        loop.call_soon(lambda: None if f.done() else f.set_exception(e), label="status-fail")
+                    out.append((f"{n}-ok", ok))
+                    out.append((f"{n}-fail", fail))
+            return out
+        loop.env_menu = menu
+        loop.extra_key = lambda cn: (tuple(sorted(failed)), tuple((n, f.state) for n, f in futs.items()))
+        loop.run_until(task_.done, "_wait")
+        rp = {"replay": "lifecycle.wait_groups", "watch": watch}
+        g = I.getattr(re_, "_groups")
+        so = I.getattr(re_, "_status_objs")
+        others_ok = all(k in g and g[k] is sets[k] and set(g[k]) == before[k] and k in so and set(so[k]) == st_before[k] for k in ("W",))
+        w.check(G1, others_ok, dict(rp, groups={k: len(v) for k, v in g.items()}))
+        if task_.exc is None and task_.state == "FINISHED":
+            w.cover("returned done")
+            w.check(G2, task_.result_v is True and futs["a1"].done() and futs["a2"].done() and "A" not in g and "A" not in so, rp)
+        else:
+            w.cover("raised")
+            w.ok(G2)
+    return t
+
+
+for _watch in (False, True):
+    _mk_wait(_watch)
